@@ -634,7 +634,6 @@ class t2data(object):
         infile.read_value_line(self.parameter, 'param3')
         for val in infile.read_values('default_incons'):
             self.parameter['default_incons'].append(val)
-        self.parameter['default_incons'] = trim_trailing_nones(self.parameter['default_incons'])
         # read any additional lines of default incons:
         more = True
         while more:
@@ -644,9 +643,11 @@ class t2data(object):
                 if section: more = False
                 else:
                     more_incons = infile.parse_string(line, 'default_incons')
-                    more_incons = trim_trailing_nones(more_incons)
                     self.parameter['default_incons'] += more_incons
             else: more, line = False, None
+        # blank values are dropped only at the end of the list (a blank followed by
+        # further values is a value not given, and keeps its position):
+        self.parameter['default_incons'] = trim_trailing_nones(self.parameter['default_incons'])
         return line
 
     def write_parameters(self, outfile):
